@@ -1431,7 +1431,7 @@ func ruleG12(r *Run) {
 					found := false
 					ast.Inspect(e, func(k ast.Node) bool {
 						if c, ok := k.(*ast.CallExpr); ok {
-							if g := Callee(info, c); g != nil && (g.Name() == "getServiceContext" || g.Name() == "NewServiceContext") {
+							if g := Callee(info, c); g != nil && (refName(g.Name()) == "getServiceContext" || g.Name() == "NewServiceContext") {
 								found = true
 							}
 						}
@@ -1553,7 +1553,7 @@ func ruleG7(r *Run) {
 			ast.Inspect(fd.Body, func(n ast.Node) bool {
 				if as, ok := n.(*ast.AssignStmt); ok && len(as.Rhs) == 1 {
 					if call, ok := ast.Unparen(as.Rhs[0]).(*ast.CallExpr); ok {
-						if f := Callee(info, call); f != nil && f.Name() == "parseHeader" {
+						if f := Callee(info, call); f != nil && refName(f.Name()) == "parseHeader" {
 							for i, l := range as.Lhs {
 								// index is the result named index
 								if f.Type().(*types.Signature).Results().At(i).Name() == "index" {
@@ -1651,7 +1651,7 @@ func ruleG7(r *Run) {
 						if identObj(info2, a) != o {
 							continue
 						}
-						if f.Name() == "makeHeader" {
+						if refName(f.Name()) == "makeHeader" {
 							found = true
 							return true
 						}
@@ -1675,7 +1675,7 @@ func ruleG7(r *Run) {
 			ast.Inspect(fd.Body, func(n ast.Node) bool {
 				if as, ok := n.(*ast.AssignStmt); ok && len(as.Rhs) == 1 {
 					if call, ok := ast.Unparen(as.Rhs[0]).(*ast.CallExpr); ok {
-						if f := Callee(info, call); f != nil && f.Name() == "parseHeader" {
+						if f := Callee(info, call); f != nil && refName(f.Name()) == "parseHeader" {
 							for i, l := range as.Lhs {
 								if f.Type().(*types.Signature).Results().At(i).Name() == "index" {
 									parsed = identObj(info, l)
